@@ -13,19 +13,20 @@ def flatten_rule(chk, P):
     fl = P.body(FM + "flatten")
     if not chk.anchor("FramedMap::flatten", fl):
         return
-    its = [[canon(x) for x in P.call_arg_terms(fl, bb)] for bb, t in fl.calls() if callee_name(t)[0].endswith("iter::IntoIterator>::into_iter")]
+    # what the scan walks over: the receiver of the loop's next() (a `for` loop and a `while let .. = it.next()` read alike)
+    its = [[canon(x) for x in P.call_arg_terms(fl, bb)] for bb, t in fl.calls() if callee_name(t)[0].endswith("Iterator>::next")]
     chk.require(its == [["Iterator::rev([T]::iter(self.values))"]], "TAB", "TAB:flatten:reverse-scan", "for (k, v) in self.values.iter().rev()", "flatten iterates %s" % its)
     ins = [(bb, [canon(x) for x in P.call_arg_terms(fl, bb)]) for bb, t in fl.calls() if callee_name(t)[0] == "std::collections::HashMap::insert"]
     good = len(ins) == 1
     if good:
         g = panrules.guards_at(P, fl, ins[0][0])
-        E = "some!(Iterator::next(IntoIterator::into_iter(Iterator::rev([T]::iter(self.values)))))"
+        E = "some!(Iterator::next(Iterator::rev([T]::iter(self.values))))"
         good = any(x[0] == "call" and x[1] == "HashMap::contains_key" and x[3] is False and x[2][1] == E + ".0" for x in g) and ins[0][1][1] == "Clone::clone(%s.0)" % E and ins[0][1][2] == E + ".1"
     chk.require(good, "GUARD", "GUARD:flatten:first-occurrence-wins", "insert(key, value) only on the !contains_key(key) edge (innermost binding wins)", "flatten inserts %s" % ins)
     hb = [bb for bb, t in fl.calls() if callee_name(t)[0].endswith("Iterator>::next")]
     if chk.anchor("flatten loop header", len(hb) == 1):
-        E = "some!(Iterator::next(IntoIterator::into_iter(Iterator::rev([T]::iter(self.values)))))"
-        N = "variant(Iterator::next(IntoIterator::into_iter(Iterator::rev([T]::iter(self.values)))))"
+        E = "some!(Iterator::next(Iterator::rev([T]::iter(self.values))))"
+        N = "variant(Iterator::next(Iterator::rev([T]::iter(self.values))))"
         CK = "HashMap::contains_key(HashMap::new(), %s.0)" % E
         want = {(frozenset([(N, ("None",))]), (), "return"),
                 (frozenset([(N, ("Some",)), (CK, True)]), (CK,), "back"),
